@@ -57,8 +57,9 @@ Qed.
 Definition slot_inv (s : slot) : Prop :=
   wf_pg (s_src s) /\ s_upper s <= pg_bincl (s_src s) /\
   match s_kind s with
-  | KZero => 0 <= s_upper s
-  | KExcess e => s_min s = min_power (s_src s) /\ s_upper s = incl_bound (s_src s) /\ s_min s + e <= s_upper s
+  | KZero => s_min s = 0 /\ s_upper s = 0
+  | KExcess e => s_min s = min_power (s_src s) /\ s_upper s = incl_bound (s_src s) /\ s_min s + e <= s_upper s /\
+                 - (2 * rel_tol) * (s_upper s - s_min s) <= e
   | KDeficit d => s_min s = min_power (s_src s) /\ s_upper s = incl_bound (s_src s) /\ s_min s <= s_upper s
   end.
 
@@ -82,18 +83,19 @@ Proof.
   destruct Hx as (Hwf & Hm & Hu & Hr).
   destruct (czero (sr - U) || czero (e_ratio x)) eqn:Z.
   - destruct Hs as [<-|Hs]; [|eapply IH; eauto].
-    split; [|intro; reflexivity]. unfold slot_inv; cbn. split; auto. split; [|lra].
+    split; [|intro; reflexivity]. unfold slot_inv; cbn. split; auto. split; [|split; reflexivity].
     pose proof (min_power_nonneg _ Hwf). pose proof (incl_bound_bincl (e_src x)). destruct Hwf as (_ & _ & ?). lra.
   - destruct Hs as [<-|Hs]; [|eapply IH; eauto].
     apply orb_false_iff in Z. destruct Z as [_ Z].
     split.
     + unfold slot_inv; cbn. split; auto. split; [rewrite Hu; apply incl_bound_bincl|].
       destruct (Qlt_bool (e_upper x) ((p - R) * e_ratio x / (sr - U))) eqn:A.
-      * repeat split; auto. lra.
+      * assert (e_min x <= e_upper x) by (destruct Hwf as (_ & _ & ?); rewrite Hm, Hu; lra).
+        repeat split; auto; unfold rel_tol; lra.
       * apply Qlt_bool_false in A.
         destruct (Qlt_bool ((p - R) * e_ratio x / (sr - U)) (e_min x)) eqn:B.
         -- repeat split; auto. destruct Hwf as (_ & _ & ?). rewrite Hm, Hu. lra.
-        -- repeat split; auto. lra.
+        -- apply Qlt_bool_false in B. repeat split; auto; unfold rel_tol; lra.
     + unfold slot_zero_ok; cbn. intro F. exfalso.
       assert (E : e_ratio x == 0) by (rewrite Hr, F; ring).
       apply czero_eq0 in E. congruence.
@@ -136,14 +138,24 @@ Qed.
 
 Lemma take_first_inv lp v l :
   (forall s, In s l -> slot_inv s /\ slot_zero_ok s) ->
-  v <= lp ->
+  0 <= lp -> v <= lp -> - (2 * rel_tol) * lp <= v ->
   forall s, In s (take_first lp v l) -> slot_inv s /\ slot_zero_ok s.
 Proof.
-  intros Hl Hv. apply take_first_ind; auto.
+  intros Hl Hp Hv Hv'. apply take_first_ind; auto.
   intros s e Hs K E. apply Qeq_bool_iff in E. destruct (Hl s Hs) as [(Hwf & Hb & Hk) Hz].
   rewrite K in Hk. split.
-  - unfold slot_inv; cbn. split; auto. split; auto. destruct Hk as (? & ? & ?). repeat split; auto. lra.
+  - unfold slot_inv; cbn. split; auto. split; auto. destruct Hk as (? & ? & ? & ?). repeat split; auto; [lra|].
+    unfold rel_tol in *. lra.
   - unfold slot_zero_ok in *; cbn. intro F. apply Hz in F. congruence.
+Qed.
+
+(* math.isclose(a, b) for 0 <= a < b: the gap is at most rel_tol * b *)
+Lemma isclose_lt a b : 0 <= a -> a < b -> isclose a b = true -> b - a <= rel_tol * b.
+Proof.
+  intros Ha Hab H. unfold isclose in H. apply Qle_bool_iff in H.
+  assert (E1 : Qabs (a - b) == - (a - b)) by (apply Qabs_neg; lra).
+  assert (E2 : Qabs a == a) by (apply Qabs_pos; lra). assert (E3 : Qabs b == b) by (apply Qabs_pos; lra).
+  destruct (qmax_spec (Qabs a) (Qabs b)) as [[? E]|[? E]]; rewrite E in H; unfold rel_tol in *; lra.
 Qed.
 
 Lemma cover_inv : forall fuel d l,
@@ -156,9 +168,13 @@ Proof.
   destruct (max_excess l) as [lp|]; cbn; auto.
   destruct (czero lp || Qlt_bool lp 0) eqn:B; cbn; auto.
   apply orb_false_iff in B. destruct B as [_ B]. apply Qlt_bool_false in B.
-  destruct (Qle_bool (- d) lp || isclose lp (- d)); cbn.
-  - apply take_first_inv; auto. lra.
-  - apply IH. apply take_first_inv; auto.
+  destruct (Qle_bool (- d) lp || isclose lp (- d)) eqn:C; cbn.
+  - apply take_first_inv; auto; [lra|].
+    apply orb_true_iff in C. destruct C as [C|C].
+    + apply Qle_bool_iff in C. unfold rel_tol. lra.
+    + destruct (Qlt_le_dec lp (- d)) as [L|L]; [|unfold rel_tol; lra].
+      pose proof (isclose_lt _ _ B L C) as I. unfold rel_tol in *. lra.
+  - apply IH. apply take_first_inv; auto; unfold rel_tol; lra.
 Qed.
 
 Lemma cover_all_cons d t l :
@@ -179,116 +195,81 @@ Proof.
 Qed.
 
 (* ------------------------------------------------------------------ group powers *)
-Definition gp_up (g : gpower) : Prop :=
-  wf_pg (gp_src g) /\ gp_power g <= gp_upper g /\ gp_upper g <= pg_bincl (gp_src g).
-Definition gp_lo (g : gpower) : Prop :=
-  gp_power g == 0 \/ (min_power (gp_src g) <= gp_power g /\ gp_upper g = incl_bound (gp_src g)).
-Definition gp_zero_ok (g : gpower) : Prop := pg_factor (gp_src g) == 0 -> gp_power g == 0.
+Definition gp_inv (g : gpower) : Prop :=
+  wf_pg (gp_src g) /\ gp_power g <= gp_upper g /\ gp_upper g <= pg_bincl (gp_src g) /\ 0 <= gp_lower g /\
+  (gp_power g == 0 \/ (gp_lower g = min_power (gp_src g) /\ gp_upper g = incl_bound (gp_src g))) /\
+  (pg_factor (gp_src g) == 0 -> gp_power g == 0).
 
-Lemma apply_excess_up l :
+Lemma apply_excess_inv l :
   (forall s, In s l -> slot_inv s /\ slot_zero_ok s) ->
-  forall g, In g (apply_excess l) -> gp_up g /\ gp_zero_ok g.
+  forall g, In g (apply_excess l) -> gp_inv g.
 Proof.
   intros Hl g Hg. unfold apply_excess in Hg. apply in_map_iff in Hg. destruct Hg as (s & <- & Hs).
-  destruct (Hl s Hs) as [(Hwf & Hb & Hk) Hz]. split.
-  - unfold gp_up; cbn. split; auto. split; auto. unfold slot_power.
-    destruct (s_kind s) as [|e|d].
-    + lra.
-    + lra.
-    + lra.
-  - unfold gp_zero_ok; cbn. intro F. apply Hz in F. unfold slot_power. rewrite F. reflexivity.
-Qed.
-
-Lemma apply_excess_lo l :
-  (forall s, In s l -> slot_inv s /\ slot_zero_ok s) -> nonneg_excess l ->
-  forall g, In g (apply_excess l) -> gp_lo g.
-Proof.
-  intros Hl Hn g Hg. unfold apply_excess in Hg. apply in_map_iff in Hg. destruct Hg as (s & <- & Hs).
-  destruct (Hl s Hs) as [(Hwf & Hb & Hk) _]. unfold gp_lo, slot_power; cbn.
-  destruct (s_kind s) as [|e|d] eqn:K.
-  - left; reflexivity.
-  - right. specialize (Hn s e Hs K). destruct Hk as (Hm & Hu & _). split; auto. rewrite <- Hm. lra.
-  - right. destruct Hk as (Hm & Hu & _). split; auto. rewrite <- Hm. lra.
+  destruct (Hl s Hs) as [(Hwf & Hb & Hk) Hz]. unfold gp_inv; cbn. pose proof (min_power_nonneg _ Hwf) as Hm0.
+  unfold slot_power. destruct (s_kind s) as [|e|d] eqn:K.
+  - destruct Hk as [Hm Hu]. rewrite Hm. rewrite Hu in *. split; [exact Hwf|]. split; [lra|]. split; [lra|]. split; [lra|]. split.
+    + left; reflexivity.
+    + intros _; reflexivity.
+  - destruct Hk as (Hm & Hu & Hp & _). split; [exact Hwf|]. split; [lra|]. split; [lra|]. split; [rewrite Hm; lra|]. split.
+    + right. split; auto.
+    + intro F. apply Hz in F. congruence.
+  - destruct Hk as (Hm & Hu & Hp). split; [exact Hwf|]. split; [lra|]. split; [lra|]. split; [rewrite Hm; lra|]. split.
+    + right. split; auto.
+    + intro F. apply Hz in F. congruence.
 Qed.
 
 (* ------------------------------------------------------------------ greedy top-up *)
-Lemma greedy_loop_up : forall l rem,
-  (forall g, In g l -> gp_up g /\ gp_zero_ok g) ->
-  forall g, In g (fst (greedy_loop rem l)) -> gp_up g /\ gp_zero_ok g.
+Lemma greedy_loop_inv : forall l rem,
+  (forall g, In g l -> gp_inv g) -> forall g, In g (fst (greedy_loop rem l)) -> gp_inv g.
 Proof.
   induction l as [|x t IH]; intros rem Hl g Hg; cbn in Hg; [tauto|].
-  assert (Hx : gp_up x /\ gp_zero_ok x) by (apply Hl; cbn; auto).
-  assert (Ht : forall g, In g t -> gp_up g /\ gp_zero_ok g) by (intros; apply Hl; cbn; auto).
+  assert (Hx : gp_inv x) by (apply Hl; cbn; auto).
+  assert (Ht : forall g, In g t -> gp_inv g) by (intros; apply Hl; cbn; auto).
   destruct (czero rem || czero (gp_power x)) eqn:Z.
   - specialize (IH rem Ht). destruct (greedy_loop rem t) as [t' r]. cbn in Hg.
     destruct Hg as [<-|Hg]; auto.
   - specialize (IH (rem - qmin (gp_upper x - gp_power x) rem) Ht).
     destruct (greedy_loop (rem - qmin (gp_upper x - gp_power x) rem) t) as [t' r]. cbn in Hg.
     destruct Hg as [<-|Hg]; auto.
-    destruct Hx as [(Hwf & Hp & Hb) Hz]. split.
-    + unfold gp_up; cbn. split; [exact Hwf|split; [|exact Hb]].
-      pose proof (qmin_le_l (gp_upper x - gp_power x) rem). lra.
-    + unfold gp_zero_ok in *; cbn. intro F. apply Hz in F.
-      apply orb_false_iff in Z. destruct Z as [_ Z]. apply czero_eq0 in F. congruence.
+    apply orb_false_iff in Z. destruct Z as [_ Z]. apply czero_false_neq0 in Z.
+    destruct Hx as (Hwf & Hp & Hb & H0 & Hs & Hz). unfold gp_inv; cbn.
+    split; [exact Hwf|]. split; [pose proof (qmin_le_l (gp_upper x - gp_power x) rem); lra|].
+    split; [exact Hb|]. split; [exact H0|]. split.
+    + destruct Hs as [E|Hs]; [contradiction|right; exact Hs].
+    + intro F. apply Hz in F. contradiction.
 Qed.
 
-Lemma greedy_up l rem :
-  (forall g, In g l -> gp_up g /\ gp_zero_ok g) ->
-  forall g, In g (fst (greedy rem l)) -> gp_up g /\ gp_zero_ok g.
+Lemma greedy_inv l rem :
+  (forall g, In g l -> gp_inv g) -> forall g, In g (fst (greedy rem l)) -> gp_inv g.
 Proof.
-  intros Hl. unfold greedy. destruct (czero rem); cbn [fst]; auto. now apply greedy_loop_up.
-Qed.
-
-Lemma greedy_loop_lo : forall l rem,
-  0 <= rem ->
-  (forall g, In g l -> gp_up g /\ gp_lo g) ->
-  (forall g, In g (fst (greedy_loop rem l)) -> gp_lo g) /\
-  0 <= snd (greedy_loop rem l) <= rem.
-Proof.
-  induction l as [|x t IH]; intros rem Hr Hl; cbn.
-  - split; [tauto|lra].
-  - assert (Hx : gp_up x /\ gp_lo x) by (apply Hl; cbn; auto).
-    assert (Ht : forall g, In g t -> gp_up g /\ gp_lo g) by (intros; apply Hl; cbn; auto).
-    destruct (czero rem || czero (gp_power x)) eqn:Z.
-    + specialize (IH rem Hr Ht). destruct (greedy_loop rem t) as [t' r]. cbn in *.
-      destruct IH as [IH1 IH2]. split; auto. intros g [<-|Hg]; auto. tauto.
-    + destruct Hx as [(Hwf & Hp & Hb) Hlo].
-      pose proof (qmin_spec (gp_upper x - gp_power x) rem) as Hq.
-      assert (Ha : 0 <= qmin (gp_upper x - gp_power x) rem <= rem) by (destruct Hq as [[? ->]|[? ->]]; lra).
-      assert (Hr' : 0 <= rem - qmin (gp_upper x - gp_power x) rem) by lra.
-      specialize (IH _ Hr' Ht).
-      destruct (greedy_loop (rem - qmin (gp_upper x - gp_power x) rem) t) as [t' r]. cbn in *.
-      destruct IH as [IH1 IH2]. split; [|lra].
-      intros g [<-|Hg]; auto. unfold gp_lo; cbn.
-      apply orb_false_iff in Z. destruct Z as [_ Z]. apply czero_false_neq0 in Z.
-      destruct Hlo as [E|[Hm Hu]]; [contradiction|]. right. split; auto. lra.
-Qed.
-
-Lemma greedy_lo l rem :
-  0 <= rem ->
-  (forall g, In g l -> gp_up g /\ gp_lo g) ->
-  (forall g, In g (fst (greedy rem l)) -> gp_lo g) /\ 0 <= snd (greedy rem l) <= rem.
-Proof.
-  intros Hr Hl. unfold greedy. destruct (czero rem); cbn [fst snd].
-  - split; [intros; now apply Hl|lra].
-  - now apply greedy_loop_lo.
+  intros Hl. unfold greedy. destruct (czero rem); cbn [fst]; auto. now apply greedy_loop_inv.
 Qed.
 
 (* ------------------------------------------------------------------ split over inverters *)
+(* exact: zero, or within [excl, incl] of an inverter of the set with that id *)
 Definition sp_ok (invs : list pinv) (a : Z * Q) : Prop :=
   snd a == 0 \/ exists i, In i invs /\ pi_id i = fst a /\ pi_excl i <= snd a <= pi_incl i.
+(* up to the relative tolerance of math.isclose on the lower end *)
+Definition sp_okx (invs : list pinv) (a : Z * Q) : Prop :=
+  snd a == 0 \/ exists i, In i invs /\ pi_id i = fst a /\ (1 - rel_tol) * pi_excl i <= snd a <= pi_incl i.
 
 Lemma sp_ok_incl l l' a : (forall i, In i l -> In i l') -> sp_ok l a -> sp_ok l' a.
 Proof. intros H [E|(i & Hi & ?)]; [left; auto|right; exists i; auto]. Qed.
+
+Lemma sp_ok_x bincl invs a : (forall i, In i invs -> wf_pinv bincl i) -> sp_ok invs a -> sp_okx invs a.
+Proof.
+  intros Hw [E|(i & Hi & Hid & Hb)]; [left; auto|right]. exists i. split; auto. split; auto.
+  destruct (Hw i Hi) as (He & _). unfold rel_tol. split; [|lra]. nra.
+Qed.
 
 Lemma split_loop_ok : forall bincl l rem,
   rem <= bincl ->
   (forall i, In i l -> wf_pinv bincl i) ->
   (forall a, In a (fst (split_loop rem l)) -> sp_ok l a) /\
-  (0 <= rem -> 0 <= snd (split_loop rem l) <= rem).
+  sumsp (fst (split_loop rem l)) <= qmax 0 rem.
 Proof.
   induction l as [|i t IH]; intros rem Hb Hl; cbn.
-  - split; [tauto|intros; lra].
+  - split; [tauto|]. unfold sumsp; cbn. apply qmax_ge_l.
   - assert (Hi : wf_pinv bincl i) by (apply Hl; cbn; auto).
     assert (Ht : forall j, In j t -> wf_pinv bincl j) by (intros; apply Hl; cbn; auto).
     destruct Hi as (He & Hi & Hei).
@@ -298,55 +279,38 @@ Proof.
       assert (Ha : pi_excl i <= qmin (pi_incl i) rem <= pi_incl i /\ qmin (pi_incl i) rem <= rem).
       { assert (pi_excl i <= pi_incl i) by (apply Hei; lra). destruct Hq as [[? ->]|[? ->]]; lra. }
       assert (Hb' : rem - qmin (pi_incl i) rem <= bincl) by lra.
-      specialize (IH _ Hb' Ht). destruct (split_loop (rem - qmin (pi_incl i) rem) t) as [t' r]. cbn in *.
+      specialize (IH _ Hb' Ht). destruct (split_loop (rem - qmin (pi_incl i) rem) t) as [t' r]. cbn [fst] in *.
       destruct IH as [IH1 IH2]. split.
       * intros a [<-|Ha']; [right; exists i; cbn; split; [auto|split; [reflexivity|lra]]|].
         eapply sp_ok_incl; [|apply IH1; exact Ha']. intros k Hk; right; exact Hk.
-      * intro Hr. assert (0 <= rem - qmin (pi_incl i) rem) by lra. specialize (IH2 H). lra.
-    + specialize (IH _ Hb Ht). destruct (split_loop rem t) as [t' r]. cbn in *.
-      destruct IH as [IH1 IH2]. split; auto.
-      intros a [<-|Ha']; [left; reflexivity|].
-      eapply sp_ok_incl; [|apply IH1; exact Ha']. intros k Hk; right; exact Hk.
+      * unfold sumsp in *. cbn [map snd]. rewrite qsum_cons.
+        destruct (qmax_spec 0 (rem - qmin (pi_incl i) rem)) as [[? E]|[? E]]; rewrite E in IH2;
+        destruct (qmax_spec 0 rem) as [[? ->]|[? ->]]; lra.
+    + specialize (IH _ Hb Ht). destruct (split_loop rem t) as [t' r]. cbn [fst] in *.
+      destruct IH as [IH1 IH2]. split.
+      * intros a [<-|Ha']; [left; reflexivity|].
+        eapply sp_ok_incl; [|apply IH1; exact Ha']. intros k Hk; right; exact Hk.
+      * unfold sumsp in *. cbn [map snd]. rewrite qsum_cons. lra.
 Qed.
 
-Lemma qminl_single x : qminl [x] = x.
-Proof. reflexivity. Qed.
-
-Lemma split_group_ok g :
-  gp_up g -> (length (pg_invs (gp_src g)) = 1%nat -> gp_lo g) ->
-  (forall a, In a (fst (split_group g)) -> sp_ok (pg_invs (gp_src g)) a).
+Lemma sumsp_all_zero d : (forall a, In a d -> snd a == 0) -> sumsp d == 0.
 Proof.
-  intros (Hwf & Hp & Hb) Hlo. unfold split_group.
-  destruct Hwf as (Hinv & Hbe & Hmu).
-  destruct (pg_invs (gp_src g)) as [|i [|j t]] eqn:E.
-  - cbn. tauto.
-  - cbn. intros a [<-|[]]. specialize (Hlo eq_refl). unfold sp_ok; cbn.
-    destruct Hlo as [Z|[Hm Hu]]; [left; auto|right]. exists i. split; auto. split; auto.
-    unfold min_power, incl_bound in *. rewrite E in *. cbn [map] in *. rewrite qminl_single in Hm.
-    rewrite Hu in Hp. unfold qsum in Hp; cbn [fold_right] in Hp.
-    pose proof (qmax_ge_r (pg_bexcl (gp_src g)) (pi_excl i)).
-    pose proof (qmin_le_l (pi_incl i + 0) (pg_bincl (gp_src g))). lra.
-  - assert (Hr : gp_power g <= pg_bincl (gp_src g)) by lra.
-    assert (Hs : forall k, In k (sort_invs (i :: j :: t)) -> wf_pinv (pg_bincl (gp_src g)) k).
-    { intros k Hk. apply sort_invs_in in Hk. auto. }
-    destruct (split_loop_ok _ _ _ Hr Hs) as [H1 _].
-    intros a Ha. eapply sp_ok_incl; [|apply H1; exact Ha]. intros k Hk. now apply sort_invs_in.
+  induction d as [|a d IH]; intro H; unfold sumsp in *; [reflexivity|]. cbn [map]. rewrite qsum_cons.
+  rewrite (H a) by (cbn; auto). rewrite IH by (intros; apply H; cbn; auto). lra.
 Qed.
 
-Lemma split_group_left g :
-  gp_up g -> 0 <= gp_power g -> 0 <= snd (split_group g) <= gp_power g.
+Lemma sumsp_nonneg l : (forall a, In a l -> 0 <= snd a) -> 0 <= sumsp l.
 Proof.
-  intros (Hwf & Hp & Hb) H0. unfold split_group. destruct Hwf as (Hinv & _).
-  destruct (pg_invs (gp_src g)) as [|i [|j t]] eqn:E.
-  - cbn. lra.
-  - cbn. lra.
-  - assert (Hr : gp_power g <= pg_bincl (gp_src g)) by lra.
-    assert (Hs : forall k, In k (sort_invs (i :: j :: t)) -> wf_pinv (pg_bincl (gp_src g)) k).
-    { intros k Hk. apply sort_invs_in in Hk. auto. }
-    destruct (split_loop_ok _ _ _ Hr Hs) as [_ H2]. auto.
+  intro H. unfold sumsp. apply qsum_nonneg. intros x Hx. apply in_map_iff in Hx.
+  destruct Hx as (a & <- & Ha). auto.
 Qed.
 
-(* every set-point of a group whose power is (exactly) zero is zero *)
+Lemma sp_ok_nonneg bincl invs a :
+  (forall i, In i invs -> wf_pinv bincl i) -> sp_ok invs a -> 0 <= snd a.
+Proof.
+  intros Hw [E|(i & Hi & _ & H)]; [lra|]. destruct (Hw i Hi) as (? & _). lra.
+Qed.
+
 Lemma split_loop_zero : forall l rem, rem == 0 -> forall a, In a (fst (split_loop rem l)) -> snd a == 0.
 Proof.
   induction l as [|i t IH]; intros rem Hz a Ha; cbn in Ha; [tauto|].
@@ -354,14 +318,108 @@ Proof.
   destruct (split_loop rem t) as [t' r]. cbn in *. destruct Ha as [<-|Ha]; [reflexivity|auto].
 Qed.
 
-Lemma split_group_zero g : gp_power g == 0 -> forall a, In a (fst (split_group g)) -> snd a == 0.
+Lemma qminl_single x : qminl [x] = x.
+Proof. reflexivity. Qed.
+
+(* the raw split: exact per-inverter bounds for sets with several inverters, total at most the positive
+   part of the set's power, and everything zero when the set's power is zero *)
+Lemma split_raw_multi g :
+  gp_inv g -> length (pg_invs (gp_src g)) <> 1%nat ->
+  (forall a, In a (fst (split_raw g)) -> sp_ok (pg_invs (gp_src g)) a) /\
+  sumsp (fst (split_raw g)) <= qmax 0 (gp_power g).
 Proof.
-  intros Hz. unfold split_group. destruct (pg_invs (gp_src g)) as [|i [|j t]].
+  intros (Hwf & Hp & Hb & _) L. unfold split_raw. destruct Hwf as (Hinv & _).
+  destruct (pg_invs (gp_src g)) as [|i [|j t]] eqn:E.
+  - cbn. split; [tauto|]. unfold sumsp; cbn. apply qmax_ge_l.
+  - cbn in L. congruence.
+  - assert (Hr : gp_power g <= pg_bincl (gp_src g)) by lra.
+    assert (Hs : forall k, In k (sort_invs (i :: j :: t)) -> wf_pinv (pg_bincl (gp_src g)) k).
+    { intros k Hk. apply sort_invs_in in Hk. auto. }
+    destruct (split_loop_ok _ _ _ Hr Hs) as [H1 H2]. split; auto.
+    intros a Ha. eapply sp_ok_incl; [|apply H1; exact Ha]. intros k Hk. now apply sort_invs_in.
+Qed.
+
+Lemma split_raw_zero g : gp_power g == 0 -> forall a, In a (fst (split_raw g)) -> snd a == 0.
+Proof.
+  intros Hz. unfold split_raw. destruct (pg_invs (gp_src g)) as [|i [|j t]].
   - cbn; tauto.
   - cbn. intros a [<-|[]]. exact Hz.
   - now apply split_loop_zero.
 Qed.
 
+(* ------------------------------------------------------------------ the minimum-power guard *)
+Lemma guard_ok_spec a lower :
+  0 <= lower -> guard_ok a lower = true -> (1 - rel_tol) * lower <= a /\ 0 <= a.
+Proof.
+  intros Hl H. unfold guard_ok in H. apply orb_true_iff in H. destruct H as [H|H].
+  - apply negb_true_iff in H. apply Qlt_bool_false in H. unfold rel_tol. split; [nra|lra].
+  - destruct (Qlt_le_dec a lower) as [L|L]; [|unfold rel_tol; split; [nra|lra]].
+    destruct (Qlt_le_dec a 0) as [N|N].
+    + exfalso. unfold isclose in H. apply Qle_bool_iff in H.
+      assert (E1 : Qabs (a - lower) == - (a - lower)) by (apply Qabs_neg; lra).
+      assert (E2 : Qabs a == - a) by (apply Qabs_neg; lra). assert (E3 : Qabs lower == lower) by (apply Qabs_pos; lra).
+      destruct (qmax_spec (Qabs a) (Qabs lower)) as [[? E]|[? E]]; rewrite E in H; unfold rel_tol in *; lra.
+    + pose proof (isclose_lt _ _ N L H). unfold rel_tol in *. split; lra.
+Qed.
+
+Lemma zeroed_in (d : list (Z * Q)) a : In a (map (fun a => (fst a, 0)) d) -> snd a == 0.
+Proof. intro H. apply in_map_iff in H. destruct H as (b & <- & _). reflexivity. Qed.
+
+(* what the guarded split guarantees for a set *)
+Lemma split_group_spec g :
+  gp_inv g ->
+  let d := fst (split_group g) in
+  (forall a, In a d -> sp_okx (pg_invs (gp_src g)) a) /\
+  (length (pg_invs (gp_src g)) <> 1%nat -> forall a, In a d -> sp_ok (pg_invs (gp_src g)) a) /\
+  0 <= sumsp d /\ sumsp d <= qmax 0 (gp_power g) /\
+  (sumsp d == 0 \/ (1 - rel_tol) * min_power (gp_src g) <= sumsp d) /\
+  (pg_factor (gp_src g) == 0 -> forall a, In a d -> snd a == 0).
+Proof.
+  intros Hinv. pose proof Hinv as (Hwf & Hp & Hb & H0 & Hs & Hz). cbn zeta.
+  assert (Hwi : forall i, In i (pg_invs (gp_src g)) -> wf_pinv (pg_bincl (gp_src g)) i) by (destruct Hwf; auto).
+  unfold split_group. destruct (split_raw g) as [d0 r0] eqn:R.
+  destruct (guard_ok (sumsp d0) (gp_lower g)) eqn:G; cbn [fst].
+  2:{ (* the set is not used *)
+      pose proof (sumsp_zeroed d0) as Z0.
+      repeat split.
+      - intros a Ha. left. eapply zeroed_in; eauto.
+      - intros _ a Ha. left. eapply zeroed_in; eauto.
+      - lra.
+      - pose proof (qmax_ge_l 0 (gp_power g)). lra.
+      - left; exact Z0.
+      - intros _ a Ha. eapply zeroed_in; eauto. }
+  destruct (guard_ok_spec _ _ H0 G) as [G1 G2].
+  destruct (Nat.eq_dec (length (pg_invs (gp_src g))) 1) as [L|L].
+  - (* one inverter: its set-point is the set's power *)
+    destruct (pg_invs (gp_src g)) as [|i [|j t]] eqn:E; cbn in L; try congruence.
+    unfold split_raw in R. rewrite E in R. inversion R; subst d0 r0. clear R.
+    assert (T : sumsp [(pi_id i, gp_power g)] == gp_power g) by (unfold sumsp; cbn; lra).
+    rewrite T in *.
+    assert (Hsingle : sp_okx [i] (pi_id i, gp_power g)).
+    { destruct Hs as [Z|[Hm Hu]]; [left; exact Z|right]. exists i. cbn. split; auto. split; auto.
+      unfold min_power, incl_bound in *. rewrite E in *. cbn [map] in *. rewrite qminl_single in Hm.
+      rewrite Hu in Hp. unfold qsum in Hp; cbn [fold_right] in Hp.
+      pose proof (qmax_ge_r (pg_bexcl (gp_src g)) (pi_excl i)).
+      pose proof (qmin_le_l (pi_incl i + 0) (pg_bincl (gp_src g))).
+      destruct (Hwi i (or_introl eq_refl)) as (He & _). rewrite Hm in G1. unfold rel_tol in *. split; [nra|lra]. }
+    repeat split.
+    + intros a [<-|[]]. exact Hsingle.
+    + intro C. cbn in C. congruence.
+    + lra.
+    + pose proof (qmax_ge_r 0 (gp_power g)). lra.
+    + destruct Hs as [Z|[Hm Hu]]; [left; lra|right]. rewrite <- Hm. lra.
+    + intros F a [<-|[]]. cbn. auto.
+  - assert (Hd0 : d0 = fst (split_raw g)) by (rewrite R; reflexivity).
+    destruct (split_raw_multi g Hinv L) as [M1 M2]. rewrite <- Hd0 in *.
+    repeat split.
+    + intros a Ha. eapply sp_ok_x; eauto.
+    + intros _ a Ha. auto.
+    + exact G2.
+    + exact M2.
+    + destruct Hs as [Z|[Hm Hu]]; [left|right; rewrite <- Hm; exact G1].
+      apply sumsp_all_zero. rewrite Hd0. now apply split_raw_zero.
+    + intros F. rewrite Hd0. apply split_raw_zero. auto.
+Qed.
 (* ------------------------------------------------------------------ the groups keep their identity *)
 Lemma reserve_src : forall l p sr R U, map s_src (reserve p sr R U l) = map e_src l.
 Proof.
@@ -426,15 +484,6 @@ Proof.
   - destruct (IH gr H) as (g' & ? & ?). exists g'. auto.
 Qed.
 
-Lemma split_all_left_nonneg : forall l,
-  (forall g, In g l -> 0 <= snd (split_group g)) -> 0 <= snd (split_all l).
-Proof.
-  induction l as [|g t IH]; intros H; cbn; [lra|].
-  assert (0 <= snd (split_group g)) by (apply H; cbn; auto).
-  assert (0 <= snd (split_all t)) by (apply IH; intros; apply H; cbn; auto).
-  destruct (split_group g) as [d r]. destruct (split_all t) as [ds rs]. cbn in *. lra.
-Qed.
-
 (* ------------------------------------------------------------------ the pipeline of [core] *)
 Definition final_powers (gs : list pgroup) (p : Q) : list gpower * Q :=
   greedy (left_over gs p) (assigned gs p).
@@ -475,23 +524,11 @@ Proof.
   apply (reserve_inv (total_cap gs)). now apply entries_ok.
 Qed.
 
-Lemma assigned_up gs p : wf_pgs gs -> forall g, In g (assigned gs p) -> gp_up g /\ gp_zero_ok g.
-Proof. intros Hwf. unfold assigned. apply apply_excess_up. now apply covered_inv. Qed.
+Lemma assigned_inv gs p : wf_pgs gs -> forall g, In g (assigned gs p) -> gp_inv g.
+Proof. intros Hwf. unfold assigned. apply apply_excess_inv. now apply covered_inv. Qed.
 
-Lemma final_up gs p : wf_pgs gs -> forall g, In g (fst (final_powers gs p)) -> gp_up g /\ gp_zero_ok g.
-Proof. intros Hwf. unfold final_powers. apply greedy_up. now apply assigned_up. Qed.
-
-(* the two run-time side conditions of the lower-bound theorems *)
-Definition exact_cover (gs : list pgroup) (p : Q) : Prop := nonneg_excess (fst (covered_slots gs p)).
-Definition lower_ok (gs : list pgroup) (p : Q) : Prop := exact_cover gs p /\ 0 <= left_over gs p.
-
-Lemma final_lo gs p : wf_pgs gs -> lower_ok gs p ->
-  (forall g, In g (fst (final_powers gs p)) -> gp_lo g) /\ 0 <= snd (final_powers gs p) <= left_over gs p.
-Proof.
-  intros Hwf [Hc Hl]. unfold final_powers. apply greedy_lo; auto.
-  intros g Hg. split; [now apply (assigned_up gs p Hwf)|].
-  unfold assigned in Hg. eapply apply_excess_lo; eauto. now apply covered_inv.
-Qed.
+Lemma final_inv gs p : wf_pgs gs -> forall g, In g (fst (final_powers gs p)) -> gp_inv g.
+Proof. intros Hwf. unfold final_powers. apply greedy_inv. now apply assigned_inv. Qed.
 
 Lemma final_src gs p g : In g (map gp_src (fst (final_powers gs p))) -> In g gs.
 Proof.
@@ -499,12 +536,7 @@ Proof.
   rewrite greedy_src, apply_excess_src, cover_all_src, reserve_src. apply entries_src.
 Qed.
 
-Lemma gp_lo_nonneg g : gp_up g -> gp_lo g -> 0 <= gp_power g.
-Proof.
-  intros (Hwf & _) [E|[Hm _]]; [lra|]. pose proof (min_power_nonneg _ Hwf). lra.
-Qed.
-
-(* ------------------------------------------------------------------ theorems on the core *)
+(* ------------------------------------------------------------------ theorems on the core (all unconditional on the run) *)
 Lemma zeros_in gs gr : In gr (zeros gs) ->
   In (gr_src gr) gs /\ gr_left gr = 0 /\ forall a, In a (gr_sp gr) -> snd a == 0.
 Proof.
@@ -519,101 +551,79 @@ Proof.
   - apply (final_src gs p). rewrite <- split_all_src. now apply in_map.
 Qed.
 
-(* C02_inverter: groups with one inverter need the lower-bound side conditions *)
+(* a result group is either all zeros or the guarded split of a final group power *)
+Lemma core_group_cases gs p r gr : wf_pgs gs -> core gs p = Some r -> In gr (res_groups r) ->
+  (In (gr_src gr) gs /\ forall a, In a (gr_sp gr) -> snd a == 0) \/
+  exists g, gp_inv g /\ gr_src gr = gp_src g /\ gr_sp gr = fst (split_group g).
+Proof.
+  intros Hwf H Hg. destruct (core_cases _ _ _ H) as [[E _]|[E _]]; rewrite E in Hg.
+  - left. destruct (zeros_in gs gr Hg) as (? & _ & ?). auto.
+  - right. apply split_all_in in Hg. destruct Hg as (g & Hg & ->). exists g. cbn.
+    split; [now apply (final_inv gs p Hwf)|auto].
+Qed.
+
 Lemma core_inverter gs p r gr :
   wf_pgs gs -> core gs p = Some r -> In gr (res_groups r) ->
-  (length (pg_invs (gr_src gr)) = 1%nat -> lower_ok gs p) ->
+  forall a, In a (gr_sp gr) -> sp_okx (pg_invs (gr_src gr)) a.
+Proof.
+  intros Hwf H Hg a Ha. destruct (core_group_cases _ _ _ _ Hwf H Hg) as [[_ Z]|(g & Hi & -> & E)].
+  - left. auto.
+  - rewrite E in Ha. now apply (split_group_spec g Hi).
+Qed.
+
+Lemma core_inverter_multi gs p r gr :
+  wf_pgs gs -> core gs p = Some r -> In gr (res_groups r) -> length (pg_invs (gr_src gr)) <> 1%nat ->
   forall a, In a (gr_sp gr) -> sp_ok (pg_invs (gr_src gr)) a.
 Proof.
-  intros Hwf H Hg Hlo a Ha. destruct (core_cases _ _ _ H) as [[E _]|[E _]]; rewrite E in Hg.
-  - left. now apply (zeros_in gs gr Hg).
-  - apply split_all_in in Hg. destruct Hg as (g & Hg & ->). cbn in *.
-    apply split_group_ok; auto.
-    + now apply (final_up gs p Hwf).
-    + intro L. now apply (final_lo gs p Hwf (Hlo L)).
+  intros Hwf H Hg L a Ha. destruct (core_group_cases _ _ _ _ Hwf H Hg) as [[_ Z]|(g & Hi & Es & E)].
+  - left. auto.
+  - rewrite Es in *. rewrite E in Ha. now apply (split_group_spec g Hi).
 Qed.
 
-Lemma sp_ok_nonneg bincl invs a :
-  (forall i, In i invs -> wf_pinv bincl i) -> sp_ok invs a -> 0 <= snd a.
-Proof.
-  intros Hw [E|(i & Hi & _ & H)]; [lra|]. destruct (Hw i Hi) as (? & _). lra.
-Qed.
-
-Lemma sumsp_nonneg l : (forall a, In a l -> 0 <= snd a) -> 0 <= sumsp l.
-Proof.
-  intro H. unfold sumsp. apply qsum_nonneg. intros x Hx. apply in_map_iff in Hx.
-  destruct Hx as (a & <- & Ha). auto.
-Qed.
-
-(* C02_group on the core *)
 Lemma core_group gs p r gr :
-  wf_pgs gs -> lower_ok gs p -> core gs p = Some r -> In gr (res_groups r) ->
-  0 <= sumsp (gr_sp gr) <= pg_bincl (gr_src gr) /\ 0 <= gr_left gr /\
-  (gr_left gr == 0 -> sumsp (gr_sp gr) == 0 \/ pg_bexcl (gr_src gr) <= sumsp (gr_sp gr)).
+  wf_pgs gs -> core gs p = Some r -> In gr (res_groups r) ->
+  0 <= sumsp (gr_sp gr) <= pg_bincl (gr_src gr) /\
+  (sumsp (gr_sp gr) == 0 \/ (1 - rel_tol) * pg_bexcl (gr_src gr) <= sumsp (gr_sp gr)).
 Proof.
-  intros Hwf Hlo H Hg. destruct (core_cases _ _ _ H) as [[E _]|[E _]]; rewrite E in Hg.
-  - destruct (zeros_in gs gr Hg) as (Hs & Hl & Hz).
-    assert (Z : sumsp (gr_sp gr) == 0).
-    { clear - Hz. induction (gr_sp gr) as [|a t IH]; [reflexivity|]. unfold sumsp in *; cbn [map]. rewrite qsum_cons.
-      rewrite (Hz a) by (cbn; auto). rewrite IH by (intros; apply Hz; cbn; auto). lra. }
-    pose proof (Hwf _ Hs) as W. pose proof (min_power_nonneg _ W). pose proof (incl_bound_bincl (gr_src gr)).
-    destruct W as (_ & _ & ?). rewrite Hl. repeat split; lra.
-  - apply split_all_in in Hg. destruct Hg as (g & Hg & ->). cbn [gr_sp gr_src gr_left].
-    destruct (final_up gs p Hwf g Hg) as [Hup _]. destruct (final_lo gs p Hwf Hlo) as [Hl _].
-    specialize (Hl g Hg). pose proof (gp_lo_nonneg _ Hup Hl) as H0.
-    pose proof (split_group_left g Hup H0) as HL.
-    pose proof (split_group_sum g (fst (split_group g)) (snd (split_group g))) as HS.
-    rewrite <- surjective_pairing in HS. specialize (HS eq_refl).
-    destruct Hup as (W & Hp & Hb). repeat split; try lra.
-    intro Z. destruct Hl as [E0|[Hm _]]; [left; lra|right]. pose proof (min_power_bexcl (gp_src g)). lra.
+  intros Hwf H Hg. destruct (core_group_cases _ _ _ _ Hwf H Hg) as [[Hs Z]|(g & Hi & Es & E)].
+  - pose proof (sumsp_all_zero _ Z) as Z0. pose proof (Hwf _ Hs) as W. pose proof (min_power_nonneg _ W).
+    pose proof (incl_bound_bincl (gr_src gr)). destruct W as (_ & _ & ?). split; [lra|left; exact Z0].
+  - rewrite Es, E. destruct (split_group_spec g Hi) as (_ & _ & T0 & T1 & T2 & _).
+    destruct Hi as (W & Hp & Hb & _). pose proof (min_power_nonneg _ W). pose proof (incl_bound_bincl (gp_src g)).
+    assert (0 <= pg_bincl (gp_src g)) by (destruct W as (_ & _ & ?); lra).
+    split.
+    + split; [exact T0|]. destruct (qmax_spec 0 (gp_power g)) as [[? Q]|[? Q]]; rewrite Q in T1; lra.
+    + destruct T2 as [Z|T2]; [left; exact Z|right]. pose proof (min_power_bexcl (gp_src g)). unfold rel_tol in *. nra.
 Qed.
 
-(* C02_no_headroom on the core: unconditional *)
 Lemma core_no_headroom gs p r gr :
   wf_pgs gs -> core gs p = Some r -> In gr (res_groups r) -> pg_factor (gr_src gr) == 0 ->
   forall a, In a (gr_sp gr) -> snd a == 0.
 Proof.
-  intros Hwf H Hg F a Ha. destruct (core_cases _ _ _ H) as [[E _]|[E _]]; rewrite E in Hg.
-  - now apply (zeros_in gs gr Hg).
-  - apply split_all_in in Hg. destruct Hg as (g & Hg & ->). cbn in *.
-    destruct (final_up gs p Hwf g Hg) as [_ Hz]. eapply split_group_zero; eauto.
+  intros Hwf H Hg F a Ha. destruct (core_group_cases _ _ _ _ Hwf H Hg) as [[_ Z]|(g & Hi & Es & E)]; auto.
+  rewrite Es in F. rewrite E in Ha. now apply (split_group_spec g Hi).
 Qed.
 
-(* C01_sign on the core *)
+Lemma sp_okx_nonneg bincl invs a :
+  (forall i, In i invs -> wf_pinv bincl i) -> sp_okx invs a -> 0 <= snd a.
+Proof.
+  intros Hw [E|(i & Hi & _ & H)]; [lra|]. destruct (Hw i Hi) as (? & _). unfold rel_tol in *. nra.
+Qed.
+
+(* C01_sign on the core: exact and unconditional *)
 Lemma core_sign gs p r :
-  wf_pgs gs -> lower_ok gs p -> core gs p = Some r -> forall a, In a (res_dist r) -> 0 <= snd a.
+  wf_pgs gs -> core gs p = Some r -> forall a, In a (res_dist r) -> 0 <= snd a.
 Proof.
-  intros Hwf Hlo H a Ha. unfold res_dist in Ha. apply in_flat_map in Ha. destruct Ha as (gr & Hg & Ha).
-  pose proof (core_inverter gs p r gr Hwf H Hg (fun _ => Hlo) a Ha) as S.
+  intros Hwf H a Ha. unfold res_dist in Ha. apply in_flat_map in Ha. destruct Ha as (gr & Hg & Ha).
+  pose proof (core_inverter gs p r gr Hwf H Hg a Ha) as S.
   pose proof (core_src _ _ _ _ H Hg) as Hs. destruct (Hwf _ Hs) as (W & _).
-  eapply sp_ok_nonneg; eauto.
+  eapply sp_okx_nonneg; eauto.
 Qed.
 
-(* C01_remainder on the core *)
-Lemma core_remainder gs p r :
-  wf_pgs gs -> lower_ok gs p -> 0 <= p -> core gs p = Some r -> 0 <= res_rem r <= p.
+(* the remainder never exceeds the request (exact, unconditional) *)
+Lemma core_remainder_upper gs p r :
+  wf_pgs gs -> core gs p = Some r -> res_rem r <= p.
 Proof.
-  intros Hwf Hlo Hp H. split.
-  - destruct (core_cases _ _ _ H) as [[_ E]|[_ E]]; rewrite E; [lra|].
-    destruct (final_lo gs p Hwf Hlo) as [Hl Hr].
-    assert (0 <= snd (split_all (fst (final_powers gs p)))).
-    { apply split_all_left_nonneg. intros g Hg. destruct (final_up gs p Hwf g Hg) as [Hup _].
-      apply split_group_left; auto. apply gp_lo_nonneg; auto. }
-    lra.
-  - pose proof (core_sum _ _ _ H) as S.
-    assert (0 <= sumsp (res_dist r)) by (apply sumsp_nonneg; intros; eapply core_sign; eauto). lra.
-Qed.
-
-(* ------------------------------------------------------------------ the side conditions are decidable by evaluation *)
-Definition nonneg_excessb (l : list slot) : bool :=
-  forallb (fun s => match s_kind s with KExcess e => Qle_bool 0 e | _ => true end) l.
-Definition lower_okb (gs : list pgroup) (p : Q) : bool :=
-  nonneg_excessb (fst (covered_slots gs p)) && Qle_bool 0 (left_over gs p).
-
-Lemma lower_okb_ok gs p : lower_okb gs p = true -> lower_ok gs p.
-Proof.
-  unfold lower_okb, lower_ok, exact_cover. intro H. apply andb_true_iff in H. destruct H as [H1 H2]. split.
-  - intros s e Hs K. unfold nonneg_excessb in H1. rewrite forallb_forall in H1. specialize (H1 s Hs).
-    rewrite K in H1. now apply Qle_bool_iff.
-  - now apply Qle_bool_iff.
+  intros Hwf H. pose proof (core_sum _ _ _ H) as S.
+  assert (0 <= sumsp (res_dist r)) by (apply sumsp_nonneg; intros; eapply core_sign; eauto). lra.
 Qed.
